@@ -497,6 +497,7 @@ pub fn replay(ctx: &Ctx, sub: &'static str, text: &str, coll: &Collector) {
     let Some(t) = u.lk.ids_of(name) else { return };
     let mut l = Local::new();
     match &sub[..3] {
+        "c01" => super::values::check_c01_triple(&u, t, &mut l, coll),
         "c06" => {
             check_c06_triple(&u, t, &mut l, coll);
             check_c06_inplace(&u, t, &mut l, coll);
